@@ -53,6 +53,10 @@ def accepted_keys(P, tu, fn, modes):
                 for v in vals:
                     if v != 'default':
                         seen_modes.add(v)
+    # every explicit label of the cipher_mode switch is a mode the validator knows (a case may hold no guard at all)
+    for sexpr, labs in guards.SWITCH_LABELS.get((f.tu, f.name), {}).items():
+        if 'cipher_mode' in sexpr:
+            seen_modes.update(v for v in labs if v != 'default')
     for g in cat:
         if g['err'] != 'IMB_ERR_JOB_KEY_LEN':
             continue
